@@ -10,6 +10,7 @@ mod gen;
 mod sp;
 mod conn;
 mod writer;
+mod runner;
 
 use std::collections::HashMap;
 use std::path::PathBuf;
@@ -90,6 +91,17 @@ fn main() {
             writer::run_replay("C10", args.num("seed", 1), stdin.lock(), args.log(), &mut rep);
             rep.finish(args.out().as_deref())
         },
+        "runner-replay" => {
+            let prop = args.get("prop").unwrap_or("C13").to_string();
+            let mut rep = Report::new(&prop);
+            runner::run_replay(&prop, args.get("which").unwrap_or("runner"), stdin.lock(), args.log(), &mut rep);
+            rep.finish(args.out().as_deref())
+        },
+        "runner-stress" => {
+            let mut rep = Report::new("C13");
+            runner::stress(&mut rep, args.num("seed", 1), args.num("rounds", 30));
+            rep.finish(args.out().as_deref())
+        },
         "sp-trace" => {
             let prop = args.get("prop").unwrap_or("C02").to_string();
             let mut rep = Report::new(&prop);
@@ -119,6 +131,7 @@ fn main() {
                 "sp-bytes" => sp::replay_bytes(&prop, r, &mut rep),
                 "conn-beh" => conn::replay_file(&prop, r, &mut rep),
                 "writer-beh" => writer::replay_file(&prop, r, &mut rep),
+                "runner-edge" | "waitgroup-edge" => runner::replay_file(&prop, r, &mut rep),
                 "bufsize" => vec_codec::sweep_bufsize(&mut rep, r["n"].as_u64().unwrap_or(0) as usize),
                 k => { eprintln!("replay kind {k} is not supported by this build"); std::process::exit(2) },
             }
